@@ -348,7 +348,15 @@ class BackendProvider(ABC):
         return {
             '_kg_power': lambda a, b: eval_dyad_power(a, b, self),
             '_kg_divide': lambda a, b: eval_dyad_divide(a, b, self),
+            '_kg_list': self._compiled_list_operand,
         }
+
+    def _compiled_list_operand(self, a):
+        """Operand of a compiled Over / Scan-Over: only a non-empty array is folded by generated code,
+        atoms and empty lists (which the adverbs return unchanged) are left to the interpreter."""
+        if not self.is_array(a) or self.array_size(a) == 0:
+            raise ValueError("not a non-empty list")
+        return a
 
     @staticmethod
     def _collect_params(ir):
